@@ -187,7 +187,8 @@ def _alphas(pw):
 
 
 def _check_indices(part, T, P, pw, nrow, ncol, rec, names=("pairwise_indices",
-                                                           "pairwise_indices_alt")):
+                                                           "pairwise_indices_alt"),
+                   self_sig="self-index"):
     alpha, alt = _alphas(pw)
     only_larger = pw.get("only_larger", True) is not False
     prim = getattr(part, names[0])
@@ -206,13 +207,14 @@ def _check_indices(part, T, P, pw, nrow, ncol, rec, names=("pairwise_indices",
                              if P[c][i, k] < thr and (not only_larger or T[c][i, k] < 0))
                 got = tuple(int(x) for x in got_all[i][c])
                 rec.compared()
+                if c in got:
+                    rec.violation("%s[%d][%d] = %r contains the column itself" % (
+                        nm, i, c, got), self_sig)
+                    got = tuple(x for x in got if x != c)
                 if got != want:
                     rec.violation("%s[%d][%d] = %r; columns with p < %r%s are %r" % (
                         nm, i, c, got, thr, " and t < 0" if only_larger else "", want),
                         "indices")
-                if c in got:
-                    rec.violation("%s[%d][%d] = %r contains the column itself" % (
-                        nm, i, c, got), "self-index")
             if alts is not None and prim is not None:
                 if not set(int(x) for x in prim[i][c]) <= set(int(x) for x in alts[i][c]):
                     rec.violation("secondary-alpha set %r does not contain primary %r" % (
@@ -336,6 +338,10 @@ def overlap_case_st(draw):
                                         allow_diff=False))
         sc["transforms"] = {"rows_dimension": {"insertions": ins}}
         sc["insertions"]["rows"] = ins
+    pw = {"alpha": draw(st.sampled_from([[0.3], [0.2, 0.6], [0.05]])),
+          "only_larger": draw(st.booleans())}
+    sc["transforms"]["pairwise_indices"] = pw
+    sc["pw"] = pw
     return sc
 
 
@@ -379,6 +385,7 @@ def judge_overlap(case, rec):
                 N[2] += w
         return S, N
 
+    Tall, Pall = {}, {}
     for a in range(ncol):
         T = np.asarray(part.pairwise_significance_t_stats(a), dtype=float)
         P = np.asarray(part.pairwise_significance_p_vals(a), dtype=float)
@@ -412,6 +419,7 @@ def judge_overlap(case, rec):
                 if not close(P[i, b], want_p, rtol=1e-6, atol=1e-9):
                     rec.violation("overlap p(sel %d, cmp %d) row %d = %r expected %r" % (
                         a, b, i, P[i, b], want_p), "overlap-p")
+        Tall[a], Pall[a] = T, P
         for b in range(ncol):
             Tb = np.asarray(part.pairwise_significance_t_stats(b), dtype=float)
             for i in range(len(rspecs)):
@@ -422,6 +430,12 @@ def judge_overlap(case, rec):
                 if not close(x, -y, rtol=1e-8, atol=1e-9):
                     rec.violation("overlap t(%d,%d)=%r is not -t(%d,%d)=%r" % (a, b, x, b, a, y),
                                   "overlap-antisymmetry")
+    # --- index sets: other columns below alpha, never the column itself
+    for a in range(ncol):
+        Pall[a] = Pall[a].copy()
+        Pall[a][:, a] = 1.0   # a column is not compared with itself
+    _check_indices(part, Tall, Pall, case["pw"], len(rspecs), ncol, rec,
+                   self_sig="overlap-own-column-in-index-set")
 
 
 SUBCHECKS = [
